@@ -194,29 +194,37 @@ Definition need_switch (sp : swspec) (cur : option Z) (k : Z) : bool :=
   | Some k0 => s_reload sp || negb (k =? k0)
   end.
 
-Definition spec_cycle (sp : swspec) (h : hist) (t : Z) (s : sst) : sst :=
-  let srcs := apply_ticks t (s_srcs s) (ticks_at sp h t) in
-  let s0 := mkS t srcs (s_cur s) (s_ninst s) (s_outs s) (t :: s_cycles s) (s_err s) in
-  let sel :=
-    match key_tick srcs t with
-    | Some k =>
-        if need_switch sp (option_map fst (s_cur s)) k then
-          match select_branch sp k with
-          | Some br => inl (Some (k, fst (inst_start t (fresh_inst br (s_ninst s) t))), s_ninst s + 1)
-          | None => inr tt
-          end
-        else inl (s_cur s, s_ninst s)
-    | None => inl (s_cur s, s_ninst s)
-    end in
-  match sel with
-  | inr _ => mkS t srcs (s_cur s) (s_ninst s) (s_outs s) (t :: s_cycles s) 2
-  | inl (None, n) => mkS t srcs None n (s_outs s) (t :: s_cycles s) (s_err s)
-  | inl (Some (k, i), n) =>
-      let '(i', em) := alone_cycle sp t srcs i in
-      mkS t srcs (Some (k, i')) n
-          (match em with Some v => (t, v) :: s_outs s | None => s_outs s end)
-          (t :: s_cycles s) (s_err s)
+(* a key tick that selects replaces the instance by a fresh, started one *)
+Definition spec_switch (sp : swspec) (t : Z) (s : sst) : sst :=
+  match key_tick (s_srcs s) t with
+  | Some k =>
+      if need_switch sp (option_map fst (s_cur s)) k then
+        match select_branch sp k with
+        | Some br =>
+            mkS (s_now s) (s_srcs s) (Some (k, fst (inst_start t (fresh_inst br (s_ninst s) t))))
+                (s_ninst s + 1) (s_outs s) (s_cycles s) (s_err s)
+        | None => mkS (s_now s) (s_srcs s) (s_cur s) (s_ninst s) (s_outs s) (s_cycles s) 2
+        end
+      else s
+  | None => s
   end.
+
+(* the one live instance runs alone *)
+Definition spec_eval (sp : swspec) (t : Z) (s : sst) : sst :=
+  match s_cur s with
+  | None => s
+  | Some (k, i) =>
+      let '(i', em) := alone_cycle sp t (s_srcs s) i in
+      mkS (s_now s) (s_srcs s) (Some (k, i')) (s_ninst s)
+          (match em with Some v => (t, v) :: s_outs s | None => s_outs s end)
+          (s_cycles s) (s_err s)
+  end.
+
+Definition spec_cycle (sp : swspec) (h : hist) (t : Z) (s : sst) : sst :=
+  let s0 := mkS t (apply_ticks t (s_srcs s) (ticks_at sp h t)) (s_cur s) (s_ninst s) (s_outs s)
+                (t :: s_cycles s) (s_err s) in
+  let s1 := spec_switch sp t s0 in
+  if negb (s_err s1 =? 0) then s1 else spec_eval sp t s1.
 
 Definition inst_wake (now : Z) (i : inst) : Z :=
   match events (i_sch i) with
@@ -417,24 +425,25 @@ Definition activate_branch (sp : swspec) (br : branch) (k t : Z) (m : mst) : mst
   let m3 := set_w (setg next (Some c2) w3) m2 in
   parent_schedule_all pushes (add_log [[22; t; i_id (c_inst c0); b2z next]] m3).
 
-(* switch_evaluate *)
-Definition switch_evaluate (sp : swspec) (t : Z) (m : mst) : mst :=
-  let m1 :=
-    match m_srcs m with
-    | (Some k, lm) :: _ =>
-        let w := m_w m in
-        if (lm =? t) || negb (is_some (w_active w)) then
-          let same_key := is_some (w_active w) && match w_akey w with Some k0 => k =? k0 | None => false end in
-          if negb (is_some (w_active w)) || s_reload sp || negb same_key then
-            match select_branch sp k with
-            | None => set_err 2 m
-            | Some br => activate_branch sp br k t m
-            end
-          else m
+(* switch_evaluate, first half: a key tick (or no active branch yet) selects *)
+Definition select_phase (sp : swspec) (t : Z) (m : mst) : mst :=
+  match m_srcs m with
+  | (Some k, lm) :: _ =>
+      let w := m_w m in
+      if (lm =? t) || negb (is_some (w_active w)) then
+        let same_key := is_some (w_active w) && match w_akey w with Some k0 => k =? k0 | None => false end in
+        if negb (is_some (w_active w)) || s_reload sp || negb same_key then
+          match select_branch sp k with
+          | None => set_err 2 m
+          | Some br => activate_branch sp br k t m
+          end
         else m
-    | _ => m
-    end in
-  if negb (m_err m1 =? 0) then m1 else
+      else m
+  | _ => m
+  end.
+
+(* switch_evaluate, second half: evaluate the active child graph only *)
+Definition eval_phase (sp : swspec) (t : Z) (m1 : mst) : mst :=
   let w := m_w m1 in
   match w_active w with
   | None => m1
@@ -449,6 +458,10 @@ Definition switch_evaluate (sp : swspec) (t : Z) (m : mst) : mst :=
       end
   end.
 
+Definition switch_evaluate (sp : swspec) (t : Z) (m : mst) : mst :=
+  let m1 := select_phase sp t m in
+  if negb (m_err m1 =? 0) then m1 else eval_phase sp t m1.
+
 (* notification of a started child whose bound outer output ticked *)
 Definition notify_child (sp : swspec) (t : Z) (tks : list (option Z)) (b : bool) (m : mst) : mst :=
   match getg b (m_w m) with
@@ -461,6 +474,14 @@ Definition notify_child (sp : swspec) (t : Z) (tks : list (option Z)) (b : bool)
   | None => m
   end.
 
+(* the recording sink on the switch output runs when the output ticked *)
+Definition rec_phase (t : Z) (m : mst) : mst :=
+  if negb (m_err m =? 0) then m else
+  match m_out m with
+  | (Some v, lm) => if lm =? t then add_log [[20; t; 1; 1; v]] m else m
+  | _ => m
+  end.
+
 (* one cycle of the root graph at time t *)
 Definition mirror_cycle (sp : swspec) (h : hist) (t : Z) (m : mst) : mst :=
   let tks := ticks_at sp h t in
@@ -470,11 +491,7 @@ Definition mirror_cycle (sp : swspec) (h : hist) (t : Z) (m : mst) : mst :=
   let m2 := notify_child sp t tks true (notify_child sp t tks false m1) in
   if negb (m_err m2 =? 0) then m2 else
   let m3 := if m_pslot m2 =? t then switch_evaluate sp t (add_log [[11; t]] m2) else m2 in
-  if negb (m_err m3 =? 0) then m3 else
-  match m_out m3 with
-  | (Some v, lm) => if lm =? t then add_log [[20; t; 1; 1; v]] m3 else m3
-  | _ => m3
-  end.
+  rec_phase t m3.
 
 Definition mirror_next (sp : swspec) (h : hist) (m : mst) : Z :=
   Z.min (next_tick sp h (m_now m)) (if m_now m <? m_pslot m then m_pslot m else MAX_DT).
